@@ -11,8 +11,8 @@ ops:
       slot    : <c|j>:<name hex>:<title hex>:<bm hex>:<attr>:<chess>:<level>:<gid>     (j: LCG filler in every
                 other byte, c: zeros)
   newbm <csv of hex ids | ->                      ptttype.NewBM on these UserID_t values: the 39 bytes of the BM_t
-  bcreate <userid hex> <cls> <name hex> <class hex> <title hex> <bms csv hex|-> <attr> <level> <chess> <0|1>   bbs.CreateBoard
-  create <user hex> <ulevel> <uid> <cls> <name hex> <class hex> <title hex> <bms hex|nil> <attr> <level> <chess> <0|1>
+  bcreate <userid hex> <cls> <name hex> <class hex> <title hex> <bms csv hex|-> <attr> <level> <chess> <0|1> <autocplog 0|1>   bbs.CreateBoard
+  create <user hex> <ulevel> <uid> <cls> <name hex> <class hex> <title hex> <bms hex|nil> <attr> <level> <chess> <0|1> <autocplog 0|1>
 answers:
   reset  : ok <observation>
   create : <ok:bid|error class|PANIC|TIMEOUT> <observation>
@@ -490,28 +490,28 @@ def doReset (ws : List String) : Option (DS × String) :=
 
 def parseReq (ws : List String) : Option Req :=
   match ws with
-  | [user, ulevel, uid, cls, name, bclass, btitle, bms, attr, level, chess, g] =>
+  | [user, ulevel, uid, cls, name, bclass, btitle, bms, attr, level, chess, g, auto] =>
       match parseBytes user 13, parseU32 ulevel, parseI32 uid, parseI32 cls, parseBytes name 13, parseBytes bclass 64,
             parseBytes btitle 128, (if bms = "nil" then some none else (parseBytes bms 39).map some), parseU32 attr,
             parseU32 level, parseNat chess 3 with
       | some user, some ulevel, some uid, some cls, some name, some bclass, some btitle, some bms, some attr,
         some level, some chess =>
-          if chess > 255 ∨ (g ≠ "0" ∧ g ≠ "1") then none else
+          if chess > 255 ∨ (g ≠ "0" ∧ g ≠ "1") ∨ (auto ≠ "0" ∧ auto ≠ "1") then none else
           some { user := copyInto 13 user, ulevel := ulevel, uid := uid, cls := cls, name := copyInto 13 name,
                  bclass := bclass, btitle := btitle, bms := bms.map (copyInto 39), attr := attr, level := level,
-                 chess := chess, isGroup := g = "1" }
+                 chess := chess, isGroup := g = "1", autoCpLog := auto = "1" }
       | _, _, _, _, _, _, _, _, _, _, _ => none
   | _ => none
 
 def parseBbs (ws : List String) : Option BbsArgs :=
   match ws with
-  | [user, cls, name, bclass, btitle, bms, attr, level, chess, g] =>
+  | [user, cls, name, bclass, btitle, bms, attr, level, chess, g, auto] =>
       match parseBytes user 32, parseI32 cls, parseBytes name 32, parseBytes bclass 64, parseBytes btitle 128,
             parseCsvBytes bms 16, parseU32 attr, parseU32 level, parseNat chess 3 with
       | some user, some cls, some name, some bclass, some btitle, some bms, some attr, some level, some chess =>
-          if chess > 255 ∨ (g ≠ "0" ∧ g ≠ "1") then none else
+          if chess > 255 ∨ (g ≠ "0" ∧ g ≠ "1") ∨ (auto ≠ "0" ∧ auto ≠ "1") then none else
           some { userID := user, cls := cls, name := name, bclass := bclass, btitle := btitle, bms := bms,
-                 attr := attr, level := level, chess := chess, isGroup := g = "1" }
+                 attr := attr, level := level, chess := chess, isGroup := g = "1", autoCpLog := auto = "1" }
       | _, _, _, _, _, _, _, _, _ => none
   | _ => none
 
